@@ -715,13 +715,18 @@ class MessageManager(ClientLike):
         header.dest_mod_id = src_module.mod_id
         header.num_data_bytes = 0
 
-        try:
-            src_module.send_message(header, b"")
-        except ConnectionError as err:
-            self.remove_module(src_module)
-            self.logger.error(f"Connection Error on write to {src_module!s} - {err!s}")
-            print("x", end="", flush=True)
-            self.send_failed_message(src_module, header, time.perf_counter())
+        # the module may already have been removed while its request was handled
+        # (a log message about the request could not be delivered to it)
+        if src_module.conn in self.modules:
+            try:
+                src_module.send_message(header, b"")
+            except ConnectionError as err:
+                self.remove_module(src_module)
+                self.logger.error(
+                    f"Connection Error on write to {src_module!s} - {err!s}"
+                )
+                print("x", end="", flush=True)
+                self.send_failed_message(src_module, header, time.perf_counter())
 
         # Always forward to logger modules
         self.send_to_loggers(header, b"")
